@@ -182,7 +182,7 @@ class Highlighter(object):
                     # The source is empty (or could not be read)
                     current_type = self.TOKEN_DEFAULT
 
-                line += self._styled(current_type, buffer)
+                line = self._joined(line, self._styled(current_type, buffer))
                 lines.append(line)
                 break
 
@@ -195,7 +195,9 @@ class Highlighter(object):
                     # Nothing but a line continuation so far
                     current_type = self.TOKEN_DEFAULT
 
-                line += self._styled(current_type, buffer.rstrip("\n"))
+                line = self._joined(
+                    line, self._styled(current_type, buffer.rstrip("\n"))
+                )
 
                 # A line continuation is not a token: keep the backslash
                 rest_of_line = read_lines[current_line - 1][current_col:].rstrip()
@@ -233,7 +235,7 @@ class Highlighter(object):
                 buffer += token_info.line[current_col : start[1]]
 
             if current_type != new_type:
-                line += self._styled(current_type, buffer)
+                line = self._joined(line, self._styled(current_type, buffer))
                 buffer = ""
                 current_type = new_type
 
@@ -266,6 +268,18 @@ class Highlighter(object):
             return text
 
         return "<{}>{}</>{}".format(self._theme[token_type], body, text[len(body) :])
+
+    def _joined(self, line, chunk):
+        # Backslashes at the end of what the line holds so far (a chunk keeps
+        # them outside its closing tag) would escape the opening tag of the
+        # next chunk: they move to the beginning of that chunk
+        kept = line.rstrip("\\")
+        if len(kept) == len(line) or not chunk.startswith("<"):
+            return line + chunk
+
+        opened = chunk.index(">") + 1
+
+        return kept + chunk[:opened] + line[len(kept) :] + chunk[opened:]
 
     def line_numbers(self, lines, mark_line=None):
         max_line_length = max(3, len(str(len(lines))))
